@@ -1432,11 +1432,22 @@ func counterBindings(w *World, r *Run, pkgPath, rule string) (map[string]string,
 				if loc == nil || len(ev.Args) != 1 {
 					continue
 				}
+				structOf := ""
 				bind := func(l *Term, v *Term) {
 					assigned[l.key]++
 					key := pkgPath + " counter " + short(l.String()) + " | created by NewCounter with a constant name"
 					if m, ok := metricOf(v); ok {
 						out[l.key] = m
+						if l.Kind == "field" && structOf != "" {
+							// the same structure reached through another pointer (a field of the serving object set from the
+							// package's singleton): counters are identified by the structure type and the field
+							tk := "type:" + structOf + "." + l.Name
+							if prev, dup := out[tk]; dup && prev != m {
+								out[tk] = "ambiguous"
+							} else {
+								out[tk] = m
+							}
+						}
 						r.Pass(rule, key, w.pos(ev.Pos), "")
 					} else if v != nil && v.Typ != nil && types.Identical(v.Typ, counterT.Type()) || (v != nil && v.Kind == "call" && v.Name == cNew) {
 						r.Fail(rule, key, w.pos(ev.Pos), "counter assigned from "+short(fmt.Sprint(v))+", not from MetricFactory.NewCounter with a constant name")
@@ -1462,6 +1473,7 @@ func counterBindings(w *World, r *Run, pkgPath, rule string) (map[string]string,
 					}
 				}
 				if v.Kind == "structval" {
+					structOf = v.Name
 					for _, fv := range v.Args {
 						if len(fv.Args) == 1 {
 							if _, isC := metricOf(fv.Args[0]); isC {
@@ -1481,6 +1493,28 @@ func counterBindings(w *World, r *Run, pkgPath, rule string) (map[string]string,
 		}
 	}
 	return out, onces
+}
+
+// counterName: the metric name a counter location was created with: by location, or — for a field of a structure of counters
+// reached through a pointer other than the package's own (w.metrics.attempt) — by structure type and field.
+func counterName(names map[string]string, recv *Term) (string, bool) {
+	if recv == nil {
+		return "", false
+	}
+	if m, ok := names[recv.key]; ok {
+		return m, true
+	}
+	if recv.Kind == "field" && len(recv.Args) == 1 && recv.Args[0] != nil && recv.Args[0].Typ != nil {
+		if et := elemType(recv.Args[0].Typ); et != nil {
+			if m, ok := names["type:"+typeStr(et)+"."+recv.Name]; ok && m != "ambiguous" {
+				return m, true
+			}
+		}
+		if m, ok := names["type:"+typeStr(recv.Args[0].Typ)+"."+recv.Name]; ok && m != "ambiguous" {
+			return m, true
+		}
+	}
+	return "", false
 }
 
 // outermostOnce: the function handed to Once.Do that (lexically) contains fn.
@@ -1544,7 +1578,8 @@ func ruleOutcomeCounter(w *World, r *Run, a *updAnalysis, rule string) {
 			if ie.Recv != nil {
 				g = ie.Recv.key
 			}
-			m, ok := names[g]
+			m, ok := counterName(names, ie.Recv)
+			_ = g
 			if !ok {
 				m = "unknown-counter:" + short(fmt.Sprint(ie.Recv))
 			}
